@@ -11,6 +11,21 @@ so using the wrong axis' size, another centre convention or another spacing chan
 import ast, os
 from py2lean import Refuse
 
+def _robust(gen, what):
+    """a source shape the spec did not anticipate is a readable refusal (tie broken), never a crash"""
+    def wrapped(repo):
+        try:
+            return gen(repo)
+        except Refuse:
+            raise
+        except (AttributeError, IndexError, KeyError, TypeError, ValueError, AssertionError) as e:
+            import traceback
+            tb = traceback.extract_tb(e.__traceback__)[-1]
+            raise Refuse(f'{what}: source has a shape this translator does not understand '
+                         f'({type(e).__name__}: {e}; while reading `{(tb.line or "").strip()[:70]}`)')
+    wrapped.__name__ = getattr(gen, '__name__', 'generator')
+    return wrapped
+
 SRC = 'lentil/util.py'
 ENV = {'shape[0]': 'S0', 'shape[1]': 'S1', 'img.shape[0]': 'n0', 'img.shape[1]': 'n1', 'scale': 's'}
 
@@ -72,7 +87,7 @@ def generator(repo):
                f'def rescaleCoordOrder : List String := [{", ".join(chr(34) + x + chr(34) for x in order)}]\n')
     return '\n'.join(out), [f'ceil {ceil_arg} coords {coords} order {order}']
 
-MODULES = [{'name': 'RescaleGrid', 'src': SRC, 'generator': generator, 'props': ['C17']}]
+MODULES = [{'name': 'RescaleGrid', 'src': SRC, 'generator': _robust(generator, 'util.rescale grid'), 'props': ['C17']}]
 
 
 # ---------------------------------------------------------------------------------------------- Plane.rescale / Plane.resample wiring
@@ -163,4 +178,4 @@ def plane_generator(repo):
            f'/-- scale factor `resample` hands to `rescale` -/\ndef prResampleScale {K} (px0 px1 new : K) : K := {rs}\n']
     return '\n'.join(out), [f'steps {steps}', f'factor {factor}', f'px {px}', f'resample {rs} guards {guards}']
 
-MODULES.append({'name': 'PlaneRescale', 'src': 'lentil/plane.py', 'generator': plane_generator, 'props': ['C17']})
+MODULES.append({'name': 'PlaneRescale', 'src': 'lentil/plane.py', 'generator': _robust(plane_generator, 'Plane.rescale/resample wiring'), 'props': ['C17']})
